@@ -155,11 +155,20 @@ pub fn rand_perm1(rng: &mut Rng) -> String {
 
 pub fn rand_perm(rng: &mut Rng) -> String {
     let pre = ["", "-", "/"][rng.below(3)];
+    if rng.chance(1, 12) {
+        // an octal number far beyond the twelve permission bits whose LOW digits look like a mode (a conversion that
+        // drops the high part accepts it as that mode): 2^32 and beyond, with zeros between
+        let high = ["4", "10", "20", "100", "7", "1", "2000", "37777"][rng.below(8)];
+        let low = ["644", "755", "022", "000", "7777", "0"][rng.below(6)];
+        let zeros = "0".repeat(6 + rng.below(14));
+        return format!("{}{}{}{}", pre, high, zeros, low);
+    }
     if rng.chance(1, 3) {
         let v = rng.below(4096);
         if rng.chance(1, 2) { format!("{}{:03o}", pre, v) } else { format!("{}{:04o}", pre, v) }
     } else {
-        let n = 1 + rng.below(4);
+        // mostly short lists; sometimes a LONG one (up to 14 clauses: what an early clause sets must survive)
+        let n = if rng.chance(1, 6) { 9 + rng.below(6) } else { 1 + rng.below(4) };
         let mut cl = vec![];
         for _ in 0..n {
             let who: String = (0..1 + rng.below(2)).map(|_| ['u', 'g', 'o', 'a'][rng.below(4)]).collect();
@@ -796,8 +805,11 @@ pub fn long_format_programs(sizes: &[usize]) -> Vec<(String, usize, Expression)>
 /// names are "normalised".  Affixes are the short words of the source dictionary plus a few usual suspects.
 pub fn affix_programs() -> Vec<Expression> {
     use Expression as E;
-    let mut affixes: Vec<String> = ["i", "/i", ":i", "I", "1", "0", "true", "false", "ci", "_ci", "-i", "\\", "*", ".", "/", " "].iter().map(|s| s.to_string()).collect();
+    let mut affixes: Vec<String> = ["i", "/i", ":i", "I", "1", "0", "true", "false", "ci", "_ci", "-i", "\\", "*", ".", "/", " ", "-ci", "/ci", "(?i)", "#i", "|i", ",i", "~i",
+                                    "\u{1}", "\u{0}i", "-nocase", ":ci", "[i]", "%i"].iter().map(|s| s.to_string()).collect();
     for w in dict() { if w.chars().count() <= 3 && !affixes.contains(w) { affixes.push(w.clone()); } }
+    // whatever a change to the code introduced (a separator, a flag spelling) is a candidate affix too
+    for w in dict_new() { if w.chars().count() <= 10 && !affixes.contains(w) { affixes.push(w.clone()); } }
     let mut out = vec![];
     let wrap = |t: Test| op(Operator::Or(E::Test(t), E::Test(Test::True)));
     let chain = |items: Vec<Expression>| { let mut it = items.into_iter(); let mut acc = it.next().unwrap(); for e in it { acc = op(Operator::And(acc, e)); } acc };
